@@ -196,13 +196,17 @@ def secondField : Got → Field
   | .val f => f
   | .err => .null
 
-/-- `Scanner.Scan`: `GetInfo` (fatal), `GetIndexes` (error ignored); the target's port is written `P` -/
-def elasticScan (scheme ip : String) (T : Nat) (x1 x2 : Exchange) : ScanOut × Nat :=
-  match elasticGet T x1 with
+/-- `Scanner.Scan` over an arbitrary `Get`: `GetInfo` (fatal), `GetIndexes` (error ignored), one after
+    the other; the target's port is written `P` -/
+def elasticScanWith (get : Exchange → Got × Nat) (scheme ip : String) (x1 x2 : Exchange) : ScanOut × Nat :=
+  match get x1 with
   | (.err, t1) => (.err, t1)
   | (.val info, t1) =>
-    let (g2, t2) := elasticGet T x2
-    (.record ⟨scheme, ip ++ ":P", info, secondField g2⟩, t1 + t2)
+    let g2 := get x2
+    (.record ⟨scheme, ip ++ ":P", info, secondField g2.1⟩, t1 + g2.2)
+
+def elasticScan (scheme ip : String) (T : Nat) (x1 x2 : Exchange) : ScanOut × Nat :=
+  elasticScanWith (elasticGet T) scheme ip x1 x2
 
 /-! ### docker (moby client) -/
 
@@ -261,14 +265,61 @@ def dockerInfoGet (T t0 : Nat) (x : Exchange) : Got × Nat :=
       | .endless => (.err, max t T)    -- the size limit is hit some time before the deadline (upper bound)
       | .eof => if unmarshalInfo body.cls then (.val (fieldOfStruct body), t) else (.err, t)
 
+/-- `Scanner.Scan` over arbitrary API calls (each takes its start time): negotiation, then `getInfo`
+    (fatal), then `ServerVersion` (error ignored); times are absolute (one context for the probe) -/
+def dockerScanWith (pingEnd : Nat) (infoGet verGet : Nat → Exchange → Got × Nat) (scheme ip : String)
+    (info ver : Exchange) : ScanOut × Nat :=
+  match infoGet pingEnd info with
+  | (.err, t1) => (.err, t1)
+  | (.val f, t1) =>
+    let g2 := verGet t1 ver
+    (.record ⟨scheme, "tcp://" ++ ip ++ ":P", f, secondField g2.1⟩, g2.2)
+
 /-- `Scanner.Scan`: ONE `context.WithTimeout` for the whole probe; negotiation ping, `getInfo` (fatal),
     `ServerVersion` (moby; error ignored) -/
 def dockerScan (scheme ip : String) (T : Nat) (ping info ver : Exchange) : ScanOut × Nat :=
-  let t0 := pingEnd T ping
-  match dockerInfoGet T t0 info with
-  | (.err, t1) => (.err, t1)
-  | (.val f, t1) =>
-    let (g2, t2) := dockerGet T t1 ver
-    (.record ⟨scheme, "tcp://" ++ ip ++ ":P", f, secondField g2⟩, t2)
+  dockerScanWith (pingEnd T ping) (dockerInfoGet T) (dockerGet T) scheme ip info ver
+
+/-! ### what this model assumes about the source (compared with Generated/HttpProbe.lean, which sxfacts
+regenerates from the two Go files on every run; `recv` = the scanner / client, `arg1` = the request / host) -/
+
+namespace Assumed
+
+/-- `elasticScanWith`: GetInfo first and fatal, GetIndexes second with its error dropped -/
+def elasticScanCalls : List (String × String) := [("GetInfo", "fatal"), ("GetIndexes", "dropped")]
+/-- `elasticScanWith`: record = (ScanType, scanner's proto, "ip:port" of the request, the two results) -/
+def elasticRecord : List (String × String) :=
+  [("Host", "fmt.Sprintf(\"%s:%d\", arg1.DstIP.String(), arg1.DstPort)"), ("Indexes", "call:GetIndexes#0"),
+   ("Info", "call:GetInfo#0"), ("Proto", "recv.proto"), ("ScanType", "ScanType")]
+/-- the requests go to the scanner's scheme and the request's host: "/" and "/_aliases" -/
+def elasticInfoURL : String := "fmt.Sprintf(\"%s://%s/\", recv.proto, arg1)"
+def elasticIndexesURL : String := "fmt.Sprintf(\"%s://%s/_aliases\", recv.proto, arg1)"
+/-- `elasticGet`: a fresh deadline of `dataTimeout` per request (budget restarts at 0), none per probe -/
+def elasticGetDeadline : String := "recv.dataTimeout"
+def elasticScanDeadline : String := ""
+/-- `elasticGet`: request bound to the deadline context, one `Decode`, then `Token` for the end of the body -/
+def elasticGetCalls : List String := ["WithTimeout", "NewRequestWithContext", "Do", "NewDecoder", "Decode", "Token"]
+/-- `followsRedirects = false`; self-signed endpoints answer (`InsecureSkipVerify`); a connection per request -/
+def client : List (String × String) :=
+  [("CheckRedirect", "func{return http.ErrUseLastResponse}"), ("Transport", "&http.Transport{…}")]
+def transport : List (String × String) :=
+  [("DisableKeepAlives", "true"), ("MaxConnsPerHost", "1"), ("TLSClientConfig.InsecureSkipVerify", "true")]
+
+/-- `dockerScanWith`: client construction and getInfo fatal, ServerVersion dropped -/
+def dockerScanCalls : List (String × String) :=
+  [("NewClientWithOpts", "fatal"), ("getInfo", "fatal"), ("ServerVersion", "dropped")]
+def dockerRecord : List (String × String) :=
+  [("Host", "\"tcp://\" + fmt.Sprintf(\"%s:%d\", arg1.DstIP.String(), arg1.DstPort)"), ("Info", "call:getInfo#0"),
+   ("Proto", "recv.proto"), ("ScanType", "ScanType"), ("Version", "call:ServerVersion#0")]
+/-- `dockerScan`: ONE deadline of `dataTimeout` for the probe, set before anything else -/
+def dockerScanDeadline : String := "recv.dataTimeout"
+/-- negotiation on, the scanner's own HTTP client and scheme, the request's host -/
+def dockerClientOpts : String :=
+  "moby.WithAPIVersionNegotiation(); moby.WithHTTPClient(recv.client); moby.WithScheme(recv.proto); moby.WithHost(\"tcp://\" + fmt.Sprintf(\"%s:%d\", arg1.DstIP.String(), arg1.DstPort))"
+/-- `dockerInfoGet`: negotiation, own request under the probe's context, bounded `ReadAll`, whole-body `Unmarshal` -/
+def dockerInfoCalls : List String :=
+  ["NegotiateAPIVersion", "NewRequestWithContext", "Do", "ReadAll", "LimitReader", "Unmarshal"]
+
+end Assumed
 
 end SxVerif.HttpProbe
